@@ -278,11 +278,15 @@ Qed.
 
 (* what reading adds to a connection's unsent output, in any world: replies the server generated
    from that connection's own input *)
-Theorem read_unsent w toks fd kk w' ys :
+Theorem read_unsent_rb w toks fd kk w' ys :
   Inv w toks -> evt_ok w (EvIn fd kk) -> handle_event w (EvIn fd kk) = inl (w', ys) ->
   exists x y gen, alookup fd (w_conns w) = Some x /\ alookup fd (w_conns w') = Some y /\
     unsent (sc_conn y) = unsent (sc_conn x) ++ flat_map serialize gen /\ Forall server_generated gen /\
-    forall fd0, fd0 <> fd -> alookup fd0 (w_conns w') = alookup fd0 (w_conns w).
+    (forall fd0, fd0 <> fd -> alookup fd0 (w_conns w') = alookup fd0 (w_conns w)) /\
+    c_rbuf (sc_conn y) = c_rbuf (sc_conn x) /\ sc_gid y = sc_gid x /\ sc_client y = sc_client x /\
+    w_conns w' = aupdate fd y (w_conns w) /\ w_backlog w' = w_backlog w /\ w_nextg w' = w_nextg w /\
+    (exists rs, ys = map (fun r => (fd, sc_gid x, r)) rs) /\
+    (sc_st x <> SClosed -> k_tosrv (client_of w (sc_client x)) <> [] -> sc_st y <> SClosed).
 Proof.
   intros HI (x & HL & Ho). cbn [Server.handle_event]. rewrite HL.
   destruct (inv_cc _ _ _ HI _ _ HL) as [Hok [ph I]].
@@ -320,9 +324,32 @@ Proof.
           assert (Eq : forall c r0, c_rbuf (enqueue_response c r0) = c_rbuf c) by reflexivity; rewrite Eq;
           try congruence; transitivity (c_rbuf c1); [exact HB|exact Hrb]. }
   destruct G as (gen & Hg & Hrb & Fg).
-  exists x, y', gen. split; [reflexivity|]. cbn [set_client set_conn w_conns].
+  assert (Hopen : sc_st x <> SClosed -> k_tosrv cl <> [] -> sc_st y <> SClosed).
+  { intros Sx Hdata. destruct (firstn n (k_tosrv cl)) as [|b bs] eqn:Fn.
+    - exfalso. assert (H1 : (1 <= n)%nat) by (apply Ra3; [lia|destruct (k_tosrv cl); [congruence|cbn; lia]]).
+      destruct n; [lia|]. destruct (k_tosrv cl); [congruence|discriminate Fn].
+    - assert (Hlen : (length (c_win (sc_conn x)) + length (b :: bs) <= BUF)%nat).
+      { rewrite <- Fn, firstn_length. lia. }
+      destruct (cc_read_calm BUF BUF_min BUF_u32 x b bs y rs (conj Hok (ex_intro _ ph I)) Hlen R Sx) as [Hy _]. exact Hy. }
+  destruct (cc_read_ids _ _ _ _ R) as [Hgid Hcl].
+  exists x, y', gen. split; [reflexivity|]. cbn [set_client set_conn w_conns w_backlog w_nextg].
   split; [eapply alookup_update_same; eauto|]. split; [rewrite Ey; apply unsent_grow; assumption|]. split; [exact Fg|].
-  intros fd0 Hne. apply alookup_update_other. congruence.
+  split; [intros fd0 Hne; apply alookup_update_other; congruence|].
+  split; [rewrite Ey; exact Hrb|].
+  split; [unfold y'; destruct (sc_st y); cbn; exact Hgid|].
+  split; [unfold y'; destruct (sc_st y); cbn; exact Hcl|].
+  split; [reflexivity|]. split; [reflexivity|]. split; [reflexivity|]. split; [exists rs; reflexivity|].
+  intros Sx Hdata. assert (E : sc_st y' = sc_st y) by (unfold y'; destruct (sc_st y) eqn:S0; cbn; auto). rewrite E. auto.
+Qed.
+
+Theorem read_unsent w toks fd kk w' ys :
+  Inv w toks -> evt_ok w (EvIn fd kk) -> handle_event w (EvIn fd kk) = inl (w', ys) ->
+  exists x y gen, alookup fd (w_conns w) = Some x /\ alookup fd (w_conns w') = Some y /\
+    unsent (sc_conn y) = unsent (sc_conn x) ++ flat_map serialize gen /\ Forall server_generated gen /\
+    forall fd0, fd0 <> fd -> alookup fd0 (w_conns w') = alookup fd0 (w_conns w).
+Proof.
+  intros HI He H. destruct (read_unsent_rb w toks fd kk w' ys HI He H) as (x & y & gen & A1 & A2 & A3 & A4 & A5 & _).
+  exists x, y, gen. auto.
 Qed.
 
 (* ---------- whole histories ---------- *)
